@@ -9,6 +9,8 @@ import (
 	"fmt"
 	"math/rand"
 	"sort"
+	"sync/atomic"
+	"time"
 
 	"mosn.io/api"
 	v2 "mosn.io/mosn/pkg/config/v2"
@@ -177,11 +179,64 @@ func runEDF(casesPath, tracePath string, rounds, maxPicks int) {
 		for _, h := range hosts {
 			h.ClearHealthFlag(api.FAILED_ACTIVE_HC)
 		}
+		// two requests at once: the first ChooseHost is held inside the scheduler (in the weight function, which the
+		// scheduler calls with its lock held), a second one is started meanwhile; whatever the two do, the scheduler must
+		// go on serving in earliest-deadline order afterwards (the picks of both calls are in the trace, their answers
+		// are not judged: the windows of the lag bound start afresh at the `epoch`)
+		if len(hosts) >= 2 && n%4 == 0 { // each such phase costs the 15 ms the second request is given
+			ctl := &weightGate{blocked: make(chan struct{}, 1), release: make(chan struct{})}
+			gh := make([]types.Host, len(hosts))
+			for i, h := range hosts {
+				gh[i] = &gatedHost{Host: h, ctl: ctl}
+			}
+			tr.Emit(vh.Ev{"ev": "sick", "hs": []string{}})
+			tr.Emit(vh.Ev{"ev": "lb", "cw": c.CW})
+			lb := cluster.NewLoadBalancer(info2, cluster.NewHostSet(gh))
+			choose(lb, 1+n%3)
+			atomic.StoreInt32(&ctl.armed, 1)
+			doneA, doneB := make(chan struct{}), make(chan struct{})
+			go func() { lb.ChooseHost(nil); close(doneA) }()
+			select {
+			case <-ctl.blocked:
+				go func() { lb.ChooseHost(nil); close(doneB) }()
+				select {
+				case <-doneB: // did not wait for the scheduler's lock
+				case <-time.After(15 * time.Millisecond):
+				}
+				close(ctl.release)
+				<-doneB
+			case <-doneA: // this balancer has no scheduler (equal weights): nothing to hold
+				close(ctl.release)
+			}
+			<-doneA
+			tr.Emit(vh.Ev{"ev": "epoch"})
+			choose(lb, picks)
+		}
 		n++
 		return nil
 	})
 	vh.Must(err, "edf cases")
 	fmt.Printf("edf lbs=%d events=%d\n", n, tr.Len())
+}
+
+// gatedHost is a host whose Weight() can be made to block once (the scheduler calls it while it picks).
+type weightGate struct {
+	armed   int32
+	blocked chan struct{}
+	release chan struct{}
+}
+
+type gatedHost struct {
+	types.Host
+	ctl *weightGate
+}
+
+func (g *gatedHost) Weight() uint32 {
+	if atomic.CompareAndSwapInt32(&g.ctl.armed, 1, 0) {
+		g.ctl.blocked <- struct{}{}
+		<-g.ctl.release
+	}
+	return g.Host.Weight()
 }
 
 func main() {
